@@ -33,7 +33,7 @@ theorem declarator_variable_init (env : Env) (G D : Nat) (pt : DType) (location 
       w7.delivered = w.delivered + 1 ∧ w7.anon = w.anon ∧ w7.muted = false ∧ w7.nextId = w.nextId ∧
       w7.mainTok = w.mainTok := by
   obtain ⟨w1, t1, hs1, ht1, hty1, hv1, hi1⟩ := parseDecl_plain env (G + 1) D pt {} location doxygen false ops x eq d1 w bmid bx bq
-    blk rest hstack hpt hy ha htx hx hxv hteq (.inr (.inr heq)) hF
+    blk rest hstack hpt hy ha htx hx hxv hteq (.inr (.inr (.inl heq))) hF
   have hnm : fieldName (blk.hdr.kind = .cls) (.mk [.name x.value none] none false) = some none := by
     have hd : decide (blk.hdr.kind = .cls) = false := by simp [hk]
     rw [hd]; rfl
